@@ -96,11 +96,13 @@ def make_line(rng, v, seg, kind, toks, ec):
         # the HL7 explicit null ("") in a field the line leaves empty, or in one more field at its end
         parts = line.split(f)
         # (not at a withdrawn field number: what happens to a value there is the known finding of its own kind)
-        gaps = set(tables.gap_numbers(v, seg))
-        empty = [i for i in range(1, len(parts)) if parts[i] == '' and i not in gaps]
+        # (nor at a row the generators never populate - malformed rows, maximum 0 - which have findings of their own)
+        usable = {r.num for r in gen.usable_rows(v, seg)}
+        top = max([r.num for r in rows if r.num] or [0])
+        empty = [i for i in range(1, len(parts)) if parts[i] == '' and (i in usable or i > top)]
         if empty:
             parts[rng.choice(empty)] = '""'
-        elif len(parts) not in gaps:
+        elif len(parts) in usable or len(parts) > top:
             parts.append('""')
         line = f.join(parts)
         toks.nulls = getattr(toks, 'nulls', 0) + 1
